@@ -58,3 +58,7 @@ Require V.Gen.RewriterTable_gen V.Proofs.C05_table_proofs.
    dimensions and alias map, and rejects exactly the lists the method raises on. *)
 Theorem C05_extract_table : forallb V.Proofs.C05_table_proofs.extract_row_ok V.Gen.RewriterTable_gen.extract_rows = true.
 Proof. exact V.Proofs.C05_table_proofs.extract_table_ok. Qed.
+(* ... and the WHERE splitting: what _extract_filters / _extract_compound_filters return on 30 scripted And / Or trees (regenerated in the same file) is
+   what `extract_filters` returns -- the function C05_where_split and C05_or_kept are about. *)
+Theorem C05_filters_table : forallb V.Proofs.C05_table_proofs.filter_row_ok V.Gen.RewriterTable_gen.filter_rows = true.
+Proof. exact V.Proofs.C05_table_proofs.filter_table_ok. Qed.
